@@ -1,7 +1,6 @@
 #!/bin/sh
-# seedtest.sh <ID> [tier]: copy the seed from the scratch worktree into /verif/seeded/<ID>/,
-# confirm (demo fails with patch, passes without) in a scratch worktree, then apply to /repo,
-# run the check, and always revert /repo.
+# seedtest.sh <ID> [tier] [NAME]: copy the seed from the scratch worktree into /verif/seeded/<NAME>/ (if present),
+# apply its patch to /repo, run the check, and always revert /repo.
 ID="$1"; TIER="${2:-quick}"; NAME="${3:-$ID}"
 SRC=/tmp/seedwt/$NAME/seed_out
 DST=/verif/seeded/$NAME
@@ -12,7 +11,6 @@ if ! git diff --quiet; then echo "/repo dirty"; exit 2; fi
 git apply --check "$DST/patch.diff" || { echo "patch does not apply"; exit 2; }
 git apply "$DST/patch.diff"
 echo "== check $ID ($TIER) with seeded patch $NAME"
-/verif/verif check "$ID" --tier "$TIER" 2>&1 | grep -v conda | grep -E "^(VIOLATION|OK|INCONCLUSIVE|KNOWN)|harness=" | cut -c1-400 | head -12
-echo "exit=$?"
+/verif/verif check "$ID" --tier "$TIER" 2>&1 | grep -v conda | grep -E "^(VIOLATION|OK|INCONCLUSIVE|KNOWN)|harness=|^  [a-z-]+:" | cut -c1-400 | head -12
 git checkout -- .
 git status --short | head -3
